@@ -125,15 +125,24 @@ def spec_hash_by(ck):
         return
     ex = ck.engine(loop_bound=4)
     ex.benign_havoc = re.compile(BENIGN.pattern + r'|create_context|props|Default>::default|Into<Arc')
+    ex.no_inline = [re.compile(r'create_context$')]
     st = State()
     m = _lb(ck, ex, st)
     H = z3.Function('siphash_state', z3.BitVecSort(64), z3.BitVecSort(64), z3.BitVecSort(64))
     FIN = z3.Function('siphash_finish', z3.BitVecSort(64), z3.BitVecSort(64))
     val = z3.BitVec('key_value_identity', 64)
+    raw = z3.BitVec('unresolved_key_object_identity', 64)
 
     def real_value_of(ctx):
+        # the fully evaluated key (native objects resolved to the string they stand for)
         ctx.st.trace.append(('evaluate-key',))
         return C.mk_result(ctx.ex, ok=Agg('milu::Value', {0: Int(val, 64)}))
+
+    def value_of(ctx):
+        # one evaluation step only: a native object (request.target, request.source) stays an object whose structural
+        # hash differs between representations of the same key string
+        ctx.st.trace.append(('evaluate-key-shallow',))
+        return C.mk_result(ctx.ex, ok=Agg('milu::Value', {0: Int(raw, 64)}))
 
     def hasher_new(ctx):
         ctx.st.trace.append(('hasher.new',))
@@ -151,7 +160,7 @@ def spec_hash_by(ck):
     def finish(ctx):
         hv = ctx.ex.deref(ctx.st, ctx.args[0])
         return Int(FIN(hv.fields[0].t), 64)
-    for rx, f in ((r'Value::real_value_of$|Evaluatable>::real_value_of$|Evaluatable>::value_of$', real_value_of),
+    for rx, f in ((r'Value::real_value_of$|Evaluatable>::real_value_of$', real_value_of), (r'Value::value_of$|Evaluatable>::value_of$', value_of),
                   (r'DefaultHasher::new$', hasher_new), (r'<(?:milu::script::)?Value as (?:std::hash::)?Hash>::hash::<', hash_),
                   (r'DefaultHasher as (?:std::hash::)?Hasher>::finish$', finish)):
         ex.overrides.append((re.compile(rx), f))
